@@ -833,8 +833,8 @@ def stream_validators(I, R, r, n):
 TREE_ALPHA = 'abXY01 "\'\\:#,-é中\x85\t'
 TREE_PR = None
 NETS = ['neta', 'NetB']            # networks the stub world knows
-CHANS = ['#x', '#Y']
-PROBES = [(n, c) for n in (None, 'neta', 'netb') for c in (None, '#x', '#y')]
+CHANS = ['#x', '#Y', '&loc', '!Safe']      # every default CHANTYPES prefix of ircutils.isChannel ('+' is not one: see the odd probes)
+PROBES = [(n, c) for n in (None, 'neta', 'netb') for c in (None, '#x', '#y', '&loc', '!safe')]
 
 class _StubIrc(object):
     def __init__(self, network): self.network = network
@@ -1028,6 +1028,10 @@ def stream_tree(I, R, r, n_hist, maxops=14):
                 dump_before = T.dump()
                 if x < 0.40:
                     w = pick_where(); text = tree_text(r, k)
+                    if r.random() < 0.25:
+                        # set the node explicitly to exactly the value it has (possibly only inherits) now
+                        try: text = str(T.reach(w)); tags.add('set-to-current')
+                        except Exception: pass
                     if not valid_unicode(text) or not tree_safe_text(k, text): continue
                     res = T.set_text(w, text)
                     ops.append(['set', list(w), text]); tags.add('set-' + w[0]); tags.add('set-' + res)
@@ -1039,6 +1043,7 @@ def stream_tree(I, R, r, n_hist, maxops=14):
                         if [d for d in T.dump() if d in dump_before] != dump_before:
                             fails.append('rejected set(%r) at %s changed stored values' % (text, w))
                     else:
+                        _check_explicit_kept(fails, explicit, w, before, after, 'set(%r)' % text)
                         explicit.add(_probe_of(w))
                         _check_locality(fails, w, before, after, 'set(%r)' % text)
                         _check_follow(fails, explicit, w, after, probes)
@@ -1050,6 +1055,7 @@ def stream_tree(I, R, r, n_hist, maxops=14):
                     lines.append('t_setv\t%s\t%s' % (enc_val(v), enc_where(w))); impl.append(res)
                     after = probe_all()
                     if res == 'done':
+                        _check_explicit_kept(fails, explicit, w, before, after, 'setValue(%r)' % (v,))
                         explicit.add(_probe_of(w))
                         _check_locality(fails, w, before, after, 'setValue(%r)' % (v,))
                         _check_follow(fails, explicit, w, after, probes)
@@ -1081,7 +1087,7 @@ def stream_tree(I, R, r, n_hist, maxops=14):
                         fails.append('after reset network %s its value %s differs from the general value %s' % (n, after[(n.lower(), None)], after[(None, None)]))
                 elif x < 0.80:
                     # odd probes: unknown network, non-channel, wrong kind
-                    pn = r.choice([None, 'ghost', 'neta', '']); pc = r.choice([None, 'notachan', '#x', '#x,y', ''])
+                    pn = r.choice([None, 'ghost', 'neta', '']); pc = r.choice([None, 'notachan', '#x', '#x,y', '', '+plus', '&loc', '#' + 'c' * 50])
                     res = T.get(pn or None, pc or None)
                     nok = pn is not None and world.getIrc(pn) is not None if pn else False
                     cok = bool(pc) and bool(I.ircutils.isChannel(pc))
@@ -1136,6 +1142,13 @@ def _probe_of(w):
     if w[0] == 'net': return (w[1].lower(), None)
     if w[0] == 'chan': return (None, w[1].lower())
     return (w[1].lower(), w[2].lower())
+
+def _check_explicit_kept(fails, explicit, w, before, after, what):
+    """a specific value that was set explicitly (and not reset since) does not follow anybody else's change"""
+    me = _probe_of(w)
+    for e in explicit:
+        if e != me and e in before and before[e] != after[e]:
+            fails.append('%s at %s changed the explicitly set value getSpecific%r: %s -> %s' % (what, '/'.join(w), e, before[e], after[e]))
 
 def _check_locality(fails, w, before, after, what):
     for p in before:
@@ -1501,6 +1514,138 @@ def stream_corpus(I, R):
         world.ircs[:] = saved
 
 
+
+# ------------------------------------------------------------------------------------------
+# value tree histories over EVERY value class (property oracles only: no model output)
+# ------------------------------------------------------------------------------------------
+def any_classes(I):
+    R_ = I.registry; conf = I.conf
+    class Tmpl(R_.TemplatedString):
+        requiredTemplates = ['foo']
+    class Some(R_.OnlySomeStrings):
+        validStrings = ('A', 'b c', 'zed', '')
+    return {
+        'Regexp': (lambda: R_.Regexp('', 'h'), ['m/a/', '/b.c/i', 'm/x y/', '/\\d+/', '', 'm/[/', 'x', '/a/z']),
+        'Json': (lambda: R_.Json({}, 'h'), ['"a"', '{"k": 1}', '[1, 2]', 'null', '"it\'s"', 'tru', '{']),
+        'Float': (lambda: R_.Float(0.5, 'h'), ['1.5', '0.25', '-3', '1e3', 'inf', 'x', '']),
+        'PositiveFloat': (lambda: R_.PositiveFloat(1.0, 'h'), ['1.5', '0.25', '7', '0', '-1', 'x']),
+        'Probability': (lambda: R_.Probability(0.5, 'h'), ['0.5', '1', '0', '0.125', '2', '-0.5']),
+        'OnlySomeStrings': (lambda: Some('A', 'h'), ['A', 'b c', 'zed', 'ZED', '"b c"', 'nope']),
+        'TemplatedString': (lambda: Tmpl('$foo', 'h'), ['x $foo', '${foo}y', '"$foo  z"', 'nofoo']),
+        'ValidNick': (lambda: conf.ValidNick('nick', 'h'), ['foo', 'a[b]', 'x\\', '1x', 'a b']),
+        'ValidChannel': (lambda: conf.ValidChannel('#d', 'h'), ['#c', '&d', '#a,key', 'x', '#a b']),
+        'SpaceSeparatedSetOfStrings': (lambda: R_.SpaceSeparatedSetOfStrings(['d'], 'h'), ['a b', 'c', 'a  b c', 'x']),
+        'CommaSeparatedSetOfStrings': (lambda: R_.CommaSeparatedSetOfStrings(['d'], 'h'), ['a, b', 'c', 'a,b , c']),
+        'Boolean': (lambda: R_.Boolean(False, 'h'), ['on', 'off', 'True', 'False', 'toggle', 'maybe']),
+        'PositiveInteger': (lambda: R_.PositiveInteger(3, 'h'), ['1', '5', '12', '0', '-2', 'x']),
+        'String': (lambda: R_.String('d', 'h'), ['abc', '"', "'a'", ' pad ', 'a\\']),
+        'NormalizedString': (lambda: R_.NormalizedString('d', 'h'), ['a  b', 'well-known', 'x' * 90, ' "q" ']),
+    }
+
+class AnyTree(RealTree):
+    """RealTree for an arbitrary class: values are observed through `observe`"""
+    def __init__(self, I, mk, kind):
+        self.I = I; self.mk = mk; self.kind = kind
+        self.boot_fresh()
+    def boot_fresh(self):
+        I = self.I; reg = I.registry; conf = I.conf
+        self.root = reg.Group(); self.root.setName('vt')
+        node = self.mk()
+        try:
+            if self.kind == 'chan': self.node = conf.registerChannelValue(self.root, 'var', node)
+            elif self.kind == 'net': self.node = conf.registerNetworkValue(self.root, 'var', node)
+            else: self.node = conf.registerGlobalValue(self.root, 'var', node)
+            return 'up'
+        except Exception:
+            self.node = None
+            return 'refused'
+    def guarded(self, f):
+        try: return f()
+        except self.I.registry.NonExistentRegistryEntry: return 'nonexistent'
+        except Exception: return 'invalid'          # InvalidRegistryValue, or the ValueError some classes raise instead
+    def get(self, n, c):
+        def f():
+            nd = self.node.getSpecific(network=n, channel=c); nd()
+            return 'val ' + repr(observe(nd))
+        return self.guarded(f)
+    def dump(self):
+        return [(nm, repr(observe(nd))) for (nm, nd) in self.root.getValues(getChildren=True) if hasattr(nd, 'value')]
+
+def stream_tree_any(I, R, r, n_hist, maxops=10):
+    world = I.world; saved_ircs = list(world.ircs)
+    world.ircs[:] = [_StubIrc(n) for n in NETS]
+    AC = any_classes(I)
+    try:
+        for h in range(n_hist):
+            cname = r.choice(sorted(AC)); mk, texts = AC[cname]
+            kind = r.choice(['chan'] * 4 + ['net'])
+            I.reset_cache()
+            T = AnyTree(I, mk, kind)
+            probes = [p for p in PROBES if kind == 'chan' or p[1] is None]
+            ops = []; fails = []; explicit = set(); tags = set(['any', 'any-' + cname])
+            def probe_all(): return {p: T.get(*p) for p in probes}
+            def pick_where():
+                y = r.random(); n = r.choice(NETS); c = r.choice(CHANS)
+                if kind == 'net': return ('base',) if y < 0.4 else ('net', n)
+                if y < 0.25: return ('base',)
+                if y < 0.5: return ('net', n)
+                if y < 0.75: return ('chan', c)
+                return ('netchan', n, c)
+            for step in range(r.randint(3, maxops)):
+                before = probe_all(); dump_before = T.dump()
+                x = r.random()
+                if x < 0.55:
+                    w = pick_where(); text = r.choice(texts)
+                    if r.random() < 0.35:
+                        try: text = str(T.reach(w)); tags.add('set-to-current')
+                        except Exception: pass
+                    res = T.set_text(w, text); ops.append(['set', list(w), text]); tags.add('any-set-' + res)
+                    after = probe_all()
+                    if res == 'invalid':
+                        if after != before: fails.append('rejected set(%r) at %s changed getSpecific: %r -> %r' % (text, '/'.join(w), before, after))
+                    elif res == 'done':
+                        _check_explicit_kept(fails, explicit, w, before, after, 'set(%r)' % text)
+                        explicit.add(_probe_of(w))
+                        _check_locality(fails, w, before, after, 'set(%r)' % text)
+                        _check_follow(fails, explicit, w, after, probes)
+                elif x < 0.68 and kind == 'chan':
+                    n = r.choice([None] + NETS); c = r.choice(CHANS)
+                    res = T.reset_chan(n, c); ops.append(['reset_chan', n, c])
+                    if res == 'done':
+                        explicit.discard((None, c.lower()))
+                        if n is not None: explicit.discard((n.lower(), c.lower()))
+                    after = probe_all()
+                    if res == 'done' and n is not None and after[(n.lower(), c.lower())] != after[(n.lower(), None)]:
+                        fails.append('after reset channel %s %s the channel value %s differs from the network value %s' % (n, c, after[(n.lower(), c.lower())], after[(n.lower(), None)]))
+                elif x < 0.76:
+                    n = r.choice(NETS); res = T.reset_net(n); ops.append(['reset_net', n])
+                    if res == 'done': explicit.discard((n.lower(), None))
+                    after = probe_all()
+                    if res == 'done' and after[(n.lower(), None)] != after[(None, None)]:
+                        fails.append('after reset network %s its value %s differs from the general value %s' % (n, after[(n.lower(), None)], after[(None, None)]))
+                else:
+                    twice = r.random() < 0.5
+                    res, text = T.save_load(); ops.append(['save_load']); tags.add('any-save-load')
+                    if res == 'up' and twice:
+                        res, text2 = T.save_load(); ops.append(['save_load'])
+                        if res == 'up' and sorted(file_value_lines(text2)) != sorted(file_value_lines(text)):
+                            fails.append('values read from %r and saved again before being used give %r: set values were dropped' % (file_value_lines(text), file_value_lines(text2)))
+                    if res != 'up':
+                        fails.append('the saved file %r does not load' % (file_value_lines(text),)); break
+                    after = probe_all()
+                    if after != before:
+                        diff = [(p_, before[p_], after[p_]) for p_ in probes if before[p_] != after[p_]]
+                        fails.append('save + load changed getSpecific: %r (file %r)' % (diff[:3], file_value_lines(text)))
+                    if T.dump() != dump_before:
+                        fails.append('save + load changed the set values: %r -> %r' % (dump_before, T.dump()))
+            fid = None
+            if fails and cname.startswith(('SpaceSeparated', 'CommaSeparated')):
+                fid = 'C15-empty-comma-list' if 'Comma' in cname else 'C15-list-element-separator'
+            R.add_oracle(Case({'op': 'tree_any', 'class': cname, 'kind': kind, 'ops': ops}, oracle_ok=not fails, oracle_msg='; '.join(fails[:3]),
+                              kind='tree-any', tags=sorted(tags), finding=fid))
+    finally:
+        world.ircs[:] = saved_ircs
+
 # ------------------------------------------------------------------------------------------
 # lazy re-reading: open_registry in the running process (Config reload / SIGHUP)
 # ------------------------------------------------------------------------------------------
@@ -1559,12 +1704,53 @@ def stream_lazy(I, R, r, n_hist, maxops=12):
                     res = T.set_value(w, v)
                     ops.append(['setv', list(w), v]); tags.add('lz-setv')
                     lines.append('l_setv\t%s\t%s' % (enc_val(v), enc_where(w))); impl.append(res)
-                elif x < 0.48 and kind == 'chan':
+                elif x < 0.46 and kind != 'global':
+                    # a node is set, saved, the file is re-read, and then — in every order — the node is reset, set,
+                    # called, its parent assigned, BEFORE or AFTER it is first read again
+                    w = pick_where()
+                    if w[0] == 'base': continue
+                    text = tree_text(r, k)
+                    if not valid_unicode(text) or not tree_safe_text(k, text): continue
+                    res = T.set_text(w, text)
+                    ops.append(['set', list(w), text]); lines.append('l_set\t%s\t%s' % (wire.enc(text), enc_where(w))); impl.append(res)
+                    if res != 'done': lines.append('l_dump'); impl.append(T.enc_dump()); continue
+                    ftext = do_save(); ops.append(['save']); do_reopen(ftext); ops.append(['reopen', ftext]); tags.add('lz-perm')
+                    me = _probe_of(w)
+                    parent = (me[0], None) if (w[0] == 'netchan') else (None, None)
+                    acts = r.sample(['reset', 'call', 'setparent', 'setw', 'call'], r.randint(1, 4))
+                    last = None
+                    for a in acts:
+                        if a == 'reset':
+                            if w[0] == 'net':
+                                res = T.reset_net(w[1]); ops.append(['reset_net', w[1]]); lines.append('l_reset_net\t%s' % wire.enc(w[1]))
+                            else:
+                                n_ = w[1] if w[0] == 'netchan' else None; c_ = w[-1]
+                                res = T.reset_chan(n_, c_); ops.append(['reset_chan', n_, c_])
+                                lines.append('l_reset_chan\t%s\t%s' % (wire.enc_opt(n_), wire.enc(c_)))
+                            impl.append(res); last = 'reset' if res == 'done' else last
+                        elif a == 'call':
+                            ops.append(['get', [list(me)]]); probe([me])
+                        elif a == 'setparent':
+                            pw = ('net', w[1]) if w[0] == 'netchan' else ('base',)
+                            t2 = tree_text(r, k)
+                            if not valid_unicode(t2) or not tree_safe_text(k, t2): continue
+                            res = T.set_text(pw, t2); ops.append(['set', list(pw), t2])
+                            lines.append('l_set\t%s\t%s' % (wire.enc(t2), enc_where(pw))); impl.append(res)
+                        else:
+                            t2 = tree_text(r, k)
+                            if not valid_unicode(t2) or not tree_safe_text(k, t2): continue
+                            res = T.set_text(w, t2); ops.append(['set', list(w), t2])
+                            lines.append('l_set\t%s\t%s' % (wire.enc(t2), enc_where(w))); impl.append(res)
+                            last = 'set' if res == 'done' else last
+                    got = probe([me, parent]); ops.append(['get', [list(me), list(parent)]])
+                    if last == 'reset' and got[me] != got[parent]:
+                        fails.append('%s was reset after the file was re-read, yet it answers %s while its parent answers %s (the reset was undone)' % ('/'.join(w), got[me], got[parent]))
+                elif x < 0.52 and kind == 'chan':
                     n = r.choice([None] + NETS); c = r.choice(CHANS)
                     res = T.reset_chan(n, c)
                     ops.append(['reset_chan', n, c]); tags.add('lz-reset-chan')
                     lines.append('l_reset_chan\t%s\t%s' % (wire.enc_opt(n), wire.enc(c))); impl.append(res)
-                elif x < 0.54 and kind in ('chan', 'net'):
+                elif x < 0.57 and kind in ('chan', 'net'):
                     n = r.choice(NETS)
                     res = T.reset_net(n)
                     ops.append(['reset_net', n]); tags.add('lz-reset-net')
@@ -1627,6 +1813,7 @@ def explore(ctx, scale, seed_stream='c15'):
     stream_oracle_only(I, R, r, 1500 * scale)
     stream_validators(I, R, r, 1200 * scale)
     stream_tree(I, R, r, 250 * scale)
+    stream_tree_any(I, R, r, 250 * scale)
     stream_lazy(I, R, r, 200 * scale)
     stream_live(I, R, r, 40 * min(scale, 10))
     stream_sweep(I, R, r, 6 if scale == 1 else 25)
@@ -1711,6 +1898,20 @@ def replay(ctx, path):
             out = bot.feed(b, 'own!u@h', b.irc.nick, cmd)
             print(cmd, '->', [m.args[-1] for m in out])
             print('    ', {('%s/%s' % (n, c)): node.getSpecific(network=n, channel=c)() for n in (None, b.irc.network) for c in (None, '#x', '#y')})
+    elif op == 'tree_any':
+        world = I.world; world.ircs[:] = [_StubIrc(n) for n in NETS]
+        I.reset_cache()
+        T = AnyTree(I, any_classes(I)[inp['class']][0], inp['kind'])
+        def show():
+            return {('%s/%s' % p_): T.get(*p_) for p_ in PROBES if inp['kind'] == 'chan' or p_[1] is None}
+        print('start:', show())
+        for o in inp['ops']:
+            if o[0] == 'set': res = T.set_text(tuple(o[1]), o[2])
+            elif o[0] == 'reset_chan': res = T.reset_chan(o[1], o[2])
+            elif o[0] == 'reset_net': res = T.reset_net(o[1])
+            else:
+                res, text = T.save_load(); res = '%s file=%r' % (res, file_value_lines(text))
+            print(o, '->', res, '\n    ', show(), '\n     set values:', T.dump())
     elif op == 'lazy':
         world = I.world; world.ircs[:] = [_StubIrc(n) for n in NETS]
         I.reset_cache(); reg = I.registry
